@@ -42,15 +42,20 @@ def rand_autop(rng, L, maxe=8):
     n = rng.randint(2, 5)
     nodes = [dict(id=i, q=0) for i in range(n)]
     oids = [0, 1, 2]
-    pats = ['all', 'all', 'even', 'odd', 'first', 'last', 'notlast', 'never']
+    pats = ['all', 'all', 'even', 'odd', 'first', 'last', 'notlast', 'never', 'late2', 'late3', 'mid', 'from1']
     edges = []
     for _ in range(rng.randint(1, maxe)):
         src, dst = rng.randrange(n), rng.randrange(n)
         pat = rng.choice(pats)
         act = [dict(all=True, even=i % 2 == 0, odd=i % 2 == 1, first=i == 0, last=i == L - 1, notlast=i < L - 1,
-                    never=False)[pat] for i in range(L)]
+                    never=False, late2=i >= 2, late3=i >= 3, mid=1 <= i < L - 1, from1=i >= 1)[pat] for i in range(L)]
         cpat = rng.choice(['const', 'site', 'alt'])
         base = [[o, rng.choice([-2, -1, 1, 2, 3])] for o in sorted(rng.sample(oids, rng.choice([1, 1, 2])))]
+        if rng.random() < 0.2:
+            # the same operator named twice in one weighted sum (a uniform plus a staggered coefficient): coefficients add
+            o, c0 = base[0]
+            base.append([o, rng.choice([c for c in (-3, -1, 1, 2, 4) if c != c0])])
+            rng.shuffle(base)
         ops = [[[o, c if cpat == 'const' else c * (i + 1) if cpat == 'site' else c * (-1) ** i] for o, c in base]
                for i in range(L)]
         edges.append(dict(src=src, dst=dst, act=act, ops=ops, static=(cpat == 'const' and pat == 'all')))
@@ -60,6 +65,26 @@ def rand_autop(rng, L, maxe=8):
         edges.append(dict(src=1, dst=1, act=[True] * L, ops=[[[0, 1]]] * L, static=True))
         edges.append(dict(src=0, dst=1, act=[True] * L, ops=[[[rng.choice([1, 2]), rng.choice([1, 2, -1])]]] * L, static=True))
     return dict(nodes=nodes, edges=edges, term=[0, 1])
+
+
+def late_autop(rng, L):
+    """Ising-like automaton whose two-site coupling is switched on only from some later bond on: the set of reachable states is
+    stationary for several layers before the intermediate state becomes reachable"""
+    k0 = rng.randrange(1, max(2, L - 1))
+    k1 = rng.choice([L - 1, L - 1, max(k0, L - 2)])
+    on = [k0 <= i <= k1 for i in range(L)]
+    on_next = [k0 < i <= k1 + 1 for i in range(L)]
+    one = [[[0, 1]]] * L
+    c, h = rng.choice([1, 2, -1]), rng.choice([1, 3, -2])
+    edges = [dict(src=0, dst=0, act=[True] * L, ops=one, static=True),
+             dict(src=1, dst=1, act=[True] * L, ops=one, static=True),
+             dict(src=0, dst=1, act=[True] * L, ops=[[[1, h]]] * L, static=True),
+             dict(src=0, dst=2, act=on, ops=[[[2, c]]] * L, static=False),
+             dict(src=2, dst=1, act=on_next, ops=[[[2, 1]]] * L, static=False)]
+    if rng.random() < 0.4:       # a longer-range tail through a second intermediate state
+        edges.append(dict(src=2, dst=3, act=on_next, ops=[[[0, 1]]] * L, static=False))
+        edges.append(dict(src=3, dst=1, act=[i >= 2 for i in range(L)], ops=[[[2, 2]]] * L, static=False))
+    return dict(nodes=[dict(id=i, q=0) for i in range(4)], edges=edges, term=[0, 1])
 
 
 def build_autop(ptn, a):
@@ -229,8 +254,11 @@ def run(ctx):
                 trees.append(dict(root=trees[0]['root'], istart=trees[0]['istart']))     # shared operators / repeated tree
             cases.append(dict(kind='trees', L=L, idoid=idoid, trees=trees))
         for _ in range(ctx.pick(220, 5000)):
-            L = rng.choice([1, 2, 3, 3, 4, 4] if ctx.quick else [1, 2, 3, 3, 4, 5])
-            cases.append(dict(kind='autop', L=L, a=rand_autop(rng, L, ctx.pick(5, 8))))
+            L = rng.choice([1, 2, 3, 3, 4, 4, 5] if ctx.quick else [1, 2, 3, 3, 4, 5, 6])
+            cases.append(dict(kind='autop', L=L, a=rand_autop(rng, L, ctx.pick(5, 8) if L <= 4 else 4)))
+        for _ in range(ctx.pick(24, 400)):
+            L = rng.choice([4, 5, 5, 6] if ctx.quick else [4, 5, 6, 7])
+            cases.append(dict(kind='autop', L=L, a=late_autop(rng, L)))
         for _ in range(ctx.pick(60, 1000)):
             cases.append(dict(kind='dense_chain', seed=rng.randrange(1 << 30)))
             cases.append(dict(kind='dense_tree', seed=rng.randrange(1 << 30)))
